@@ -4,6 +4,7 @@
 package main
 
 import (
+	"golang.org/x/tools/go/ssa"
 	"encoding/json"
 	"flag"
 	"fmt"
@@ -25,9 +26,24 @@ type Options struct {
 	Seed     int
 	Verbose  bool
 	Overlays []string
+	Renames  []string
 }
 
 var dumpFn string
+var sweepAll bool
+
+func uniq(in []string) []string {
+	m := map[string]bool{}
+	var out []string
+	for _, s := range in {
+		if !m[s] {
+			m[s] = true
+			out = append(out, s)
+		}
+	}
+	sort.Strings(out)
+	return out
+}
 
 type propFn func(w *World, r *Report)
 
@@ -50,12 +66,26 @@ func main() {
 	flag.StringVar(&o.Known, "known", "/verif/known_findings.json", "known findings file")
 	flag.BoolVar(&o.Verbose, "v", false, "print every obligation")
 	flag.Var(&ov, "overlay", "abs-file=replacement-file (may repeat); analysed instead of the file on disk")
+	var rn multiFlag
+	flag.Var(&rn, "rename", "self-test: <pkg rel path>.<Type>.<field>=<new> or <pkg rel path>.<func>=<new> (may repeat); the property is checked on the renamed program")
 	explain := flag.String("explain", "", "print a replay file")
 	list := flag.Bool("list", false, "list registered properties")
 	flag.StringVar(&dumpFn, "dumpfn", "", "debug: print the SSA of module functions whose name contains this string")
 	mut := flag.Bool("mutants", false, "run only the overlay corpus of -prop (developer loop)")
+	flag.BoolVar(&sweepAll, "sweep", false, "developer: run every property on the (renamed) program, print what is not clean")
+	listNames := flag.String("listnames", "", "developer: list unexported names of packages whose path contains one of the comma-separated fragments")
 	flag.Parse()
+	if *listNames != "" {
+		w, err := Load(o.Repo, false, nil)
+		if err != nil {
+			fmt.Println(err)
+			os.Exit(2)
+		}
+		listRenameCandidates(w, strings.Split(*listNames, ","))
+		return
+	}
 	o.Overlays = ov
+	o.Renames = rn
 	if s := os.Getenv("VERIF_SEED"); s != "" {
 		o.Seed, _ = strconv.Atoi(s)
 	}
@@ -96,6 +126,9 @@ func main() {
 		}
 		os.Exit(selfTestOnly(&o))
 	}
+	if sweepAll {
+		os.Exit(run(&o, nil))
+	}
 	f, ok := registry[o.Prop]
 	if !ok {
 		fmt.Printf("unknown property %q\n", o.Prop)
@@ -125,6 +158,71 @@ func run(o *Options, f propFn) (code int) {
 		overlay[s[:i]] = b
 	}
 	w, err := Load(o.Repo, false, overlay)
+	if err == nil && len(o.Renames) > 0 {
+		// type-resolved rename (self-test): compute the overlays on the loaded program, load again
+		ro, rerr := renameOverlays(w, o.Renames)
+		if rerr != nil {
+			fmt.Println(rerr)
+			return 2
+		}
+		for k, v := range ro {
+			overlay[k] = v
+		}
+		lockCache = map[*ssa.Function]*LockInfo{}
+		w, err = Load(o.Repo, false, overlay)
+	}
+	if sweepAll {
+		// developer sweep: every property on the (renamed / overlaid) program in one process;
+		// prints only what is not clean
+		if err != nil {
+			fmt.Println("SWEEP load failed:", firstLines(err.Error(), 3))
+			return 1
+		}
+		var ids []string
+		for id := range registry {
+			ids = append(ids, id)
+		}
+		sort.Strings(ids)
+		bad := 0
+		for _, id := range ids {
+			rr := NewReport(w, id)
+			func() {
+				defer func() {
+					if p := recover(); p != nil {
+						rr.Undecided(nil, fmt.Sprintf("engine panic: %v", p))
+					}
+				}()
+				registry[id](w, rr)
+			}()
+			oo := *o
+			oo.Prop = id
+			oo.Evidence = filepath.Join(os.TempDir(), "hvet-sweep", fmt.Sprintf("%d", os.Getpid()), id+".json")
+			_ = os.MkdirAll(filepath.Dir(oo.Evidence), 0o755)
+			old := os.Stdout
+			devnull, _ := os.Open(os.DevNull)
+			nf, _ := os.OpenFile(os.DevNull, os.O_WRONLY, 0)
+			os.Stdout = nf
+			code := rr.Finish(&oo, start, nil)
+			os.Stdout = old
+			devnull.Close()
+			nf.Close()
+			if code != 0 {
+				bad++
+				var rules []string
+				for _, ob := range rr.Obs {
+					if !ob.OK {
+						rules = append(rules, ob.Rule)
+					}
+				}
+				fmt.Printf("SWEEP %s not clean: %v %v\n", id, uniq(rules), rr.Undec)
+			}
+		}
+		_ = os.RemoveAll(filepath.Join(os.TempDir(), "hvet-sweep", fmt.Sprintf("%d", os.Getpid())))
+		if bad == 0 {
+			fmt.Println("SWEEP clean")
+		}
+		return 0
+	}
 	r := NewReport(w, o.Prop)
 	if err != nil {
 		// the tree cannot be analysed: the property cannot be asserted to hold
